@@ -221,6 +221,8 @@ def _abs(txt):
 import re
 SPEC_HANDLE = {k: (_abs(v) if isinstance(v, str) else v) for k, v in SPEC_HANDLE.items()}
 H = lambda body: '\nvoid H(void)\n{\n' + body + '\n  __CPROVER_assert(0, "VACUITY-CANARY");\n}\n'
+GUARDED = {('guarded_by', 'event_CommonLoop'): {'has_commit_run_req_': 'B->lock_.held > 0', 'run_in_loop_func_queue_': 'B->lock_.held > 0'}}       # the cross-thread queue and its wake-up flag: every access, in any function of the unit, holds lock_
+SPEC_CANCEL.update(GUARDED); SPEC_SUBMIT.update(GUARDED); SPEC_HANDLE.update(GUARDED)
 def COMMON(abstract_q=False): return dict(tu=TU, filter='tbox::event', more_filters=[(TU, 'tbox::cabinet'), (TU, 'tbox::ObjectPool')], rename=R,
     plugins=[StdFunction(), StdVector(abstract={'struct event_CommonLoop_RunFuncItem': '1'} if abstract_q else None), Sync(), Chrono(abstract_time=True), StringStreamSink(), Syscalls(), OpaqueString(),
              OpaqueTypes({r'^std::map<.*>$': 'v_map', r'^std::set<.*>$': 'v_set', r'^std::thread::id$': 'v_tid', r'^(tbox::)?cabinet::Cabinet<.*>$': 'v_cab', r'^(tbox::)?ObjectPool<.*>$': 'v_pool'})],
